@@ -36,6 +36,13 @@ from iso_pyx import MemoryFault
 
 MAX_WRITTEN = {}
 ALLOCATED = {}
+TRACE = None            # set to a list by the harness to record the state at the top of every loop iteration
+
+def _trace(n, depth, path, path_size, matched, closures, stack):
+    """(popped atom, depth, path[0..path_size), atoms whose matched flag is set, entries left on the stack, closures all zero)"""
+    if TRACE is not None:
+        TRACE.append((n, depth, list(path.a[:path_size]), [i for i, v in enumerate(matched.a) if v is True], stack,
+                      all(v == 0 for v in closures.a)))
 
 class _Poison:
     def __repr__(self): return 'POISON'
@@ -213,6 +220,7 @@ def transpile(src, name='_isomorphism.pyx'):
         return f'_u32({expr})' if ivars[var] == 'unsigned int' else f'_u64({expr})'
 
     first_body = i
+    hooks = []
     while i < n:
         raw = lines[i]
         k = i
@@ -330,6 +338,10 @@ def transpile(src, name='_isomorphism.pyx'):
             names_ok(e, k)
             e2 = e if op == '=' else f'{v} {op[0]} ({e})'
             out.append(f'{ind}{v} = {wrap(v, e2)}')
+            if s == 'n = stack_index[stack]' and all(x in arrays for x in ('path', 'matched', 'closures')) and \
+                    all(x in ivars for x in ('depth', 'path_size', 'stack')):
+                out.append(f'{ind}_trace(n, depth, path, path_size, matched, closures, stack)')
+                hooks.append(k + 1)
             continue
         if m and m.group(1) in recvars and m.group(2) == '=':
             # x = ptr[expr] : copies a record out of a view
@@ -343,7 +355,7 @@ def transpile(src, name='_isomorphism.pyx'):
             out.append(f'{ind}{m.group(1)}[{names_ok(m.group(2), k)}] = {names_ok(m.group(3), k)}')
             continue
         bad(k, 'unsupported statement')
-    return RUNTIME + '\n' + '\n'.join(out) + '\n', {'structs': structs}
+    return RUNTIME + '\n' + '\n'.join(out) + '\n', {'structs': structs, 'trace_hooks': hooks}
 
 
 _cache = {}
@@ -371,7 +383,7 @@ def inject(repo=None):
         return _cache['mod']
     rel = 'chython/algorithms/_isomorphism.pyx'
     src = open(os.path.join(repo, rel)).read()
-    py, _ = transpile(src, rel)
+    py, info = transpile(src, rel)
     outdir = os.path.join(getattr(common, 'OUT', common.VERIF), 'build', 'pyx')   # a scratch-repo run writes into its own tree
     os.makedirs(outdir, exist_ok=True)
     path = os.path.join(outdir, '_isomorphism.py')
@@ -384,6 +396,7 @@ def inject(repo=None):
     sys.modules['chython.algorithms._isomorphism'] = mod
     import chython.algorithms as alg
     alg._isomorphism = mod
+    mod.TRACE_HOOKS = info['trace_hooks']      # source lines after which the loop state is observed (exactly one expected)
     _cache['mod'] = mod
     return mod
 
